@@ -436,18 +436,40 @@ pub fn panic_site(msg: &str) -> String {
 // the harness reports on a saved duplicate.
 
 static SAVED_OUT: Mutex<Option<std::fs::File>> = Mutex::new(None);
+static CAPTURE_RD: Mutex<Option<i32>> = Mutex::new(None);
 
+/// fd 1 is pointed at a pipe owned by the harness (the engine's search prints `info` and
+/// `bestmove` with println!); `drain_stdout` returns what was printed since the last call.
 pub fn redirect_stdout() {
     use std::os::unix::io::FromRawFd;
     unsafe {
         let saved = libc::dup(1);
-        let devnull = libc::open(b"/dev/null\0".as_ptr() as *const libc::c_char, libc::O_WRONLY);
-        if saved >= 0 && devnull >= 0 {
-            libc::dup2(devnull, 1);
-            libc::close(devnull);
+        let mut fds = [0i32; 2];
+        if saved >= 0 && libc::pipe(fds.as_mut_ptr()) == 0 {
+            libc::fcntl(fds[1], libc::F_SETPIPE_SZ, 1 << 20);
+            let fl = libc::fcntl(fds[0], libc::F_GETFL);
+            libc::fcntl(fds[0], libc::F_SETFL, fl | libc::O_NONBLOCK);
+            libc::dup2(fds[1], 1);
+            libc::close(fds[1]);
             *SAVED_OUT.lock().unwrap() = Some(std::fs::File::from_raw_fd(saved));
+            *CAPTURE_RD.lock().unwrap() = Some(fds[0]);
         }
     }
+}
+
+pub fn drain_stdout() -> String {
+    let mut out = Vec::new();
+    if let Some(fd) = *CAPTURE_RD.lock().unwrap() {
+        let mut buf = [0u8; 65536];
+        loop {
+            let n = unsafe { libc::read(fd, buf.as_mut_ptr() as *mut libc::c_void, buf.len()) };
+            if n <= 0 {
+                break;
+            }
+            out.extend_from_slice(&buf[..n as usize]);
+        }
+    }
+    String::from_utf8_lossy(&out).into_owned()
 }
 
 pub fn out(line: &str) {
@@ -669,7 +691,10 @@ pub fn finish(ctx: &Ctx, level: &str, rule: &str, assumptions: &[&str], report: 
         "wall_s": (wall * 1000.0).round() / 1000.0,
         "violations": real_violations.len(),
     });
-    let evdir = ctx.verif.join("evidence");
+    // runs against a scratch copy of the repository (sensitivity experiments) must not
+    // overwrite the evidence and replays of /repo itself
+    let scratch_run = ctx.repo != Path::new("/repo");
+    let evdir = if scratch_run { ctx.verif.join(".build").join("scratch-evidence") } else { ctx.verif.join("evidence") };
     let _ = std::fs::create_dir_all(&evdir);
     if !ctx.replay {
         let path = evdir.join(format!("{}.json", ctx.prop));
@@ -689,7 +714,7 @@ pub fn finish(ctx: &Ctx, level: &str, rule: &str, assumptions: &[&str], report: 
         code = 2;
     }
     if !real_violations.is_empty() {
-        let rdir = ctx.verif.join("replays");
+        let rdir = if scratch_run { ctx.verif.join(".build").join("scratch-replays") } else { ctx.verif.join("replays") };
         let _ = std::fs::create_dir_all(&rdir);
         for v in &real_violations {
             let body = json!({
